@@ -127,6 +127,19 @@ def conformant_rdata(rep):
             ev.append({'ev': 'parse', 'kind': kind, 'rdata': list(rdata), 'out': o, 'key_bytes_kept': kept, 'cls': 'DnsRecordDnskey',
                        'origin': 'conformant'})
             rep.case('rdata|' + rdata.hex())
+    # internationalised names (RFC 5890 A-labels on the wire): parse, then compose must give the same octets back
+    from cryptoparser.dnsrec.record import DnsNameUncompressed, DnsRecordMx
+    for cls, rdata in ((DnsNameUncompressed, b'\x0dxn--bcher-kva\x07example\x00'), (DnsNameUncompressed, b'\x08xn--p1ai\x00'),
+                       (DnsRecordMx, b'\x00\x0a\x04mail\x0dxn--bcher-kva\x02de\x00')):
+        o, res, _ = call(cls.parse_exact_size, rdata)
+        kept = False
+        if o == 'ok':
+            try:
+                kept = bytes(res.compose()) == rdata
+            except Exception:  # pylint: disable=broad-except
+                kept = False
+        ev.append({'ev': 'parse', 'kind': 'idn-name', 'rdata': list(rdata), 'out': o, 'key_bytes_kept': kept, 'cls': cls.__name__, 'origin': 'conformant'})
+        rep.case('rdata|' + rdata.hex())
     return ev
 
 
